@@ -25,6 +25,7 @@ EXPLANATION = (
     "direct jax.random.uniform/randint draw lie inside the declared literal box; (R7) where the dtype category (bool / int / float) of a reward or observation leaf follows from literals, explicit dtype arguments and JAX promotion, it equals the category declared by the spec; (R8) where the symbolic shape of an observation leaf follows from array constructors, indexing, reductions, stacking and broadcasting, it equals the declared spec shape (rank, literal sizes, and which configuration extent sits on which axis). Not decided: dtypes and bounds of "
     "computed arrays (needs numeric abstract interpretation of JAX); that step accepts action_spec.generate_value() "
     "(behavioural; its spec side is C16.R5).")
+EXPLANATION += ' (R5b) every row/column arithmetic site (flat-index divmod, wrap modulus, bounds test) whose result reaches an emitted observation uses the extent of the right axis.'
 
 SP = "jumanji.specs."
 SIG = {"Array": ["shape", "dtype", "name"], "BoundedArray": ["shape", "dtype", "minimum", "maximum", "name"],
@@ -314,6 +315,7 @@ def check(tier: str) -> Result:
             res.add("C01.R2", o.site, o.func, o.construct, o.ok, o.detail)
     # ---------------------------------------------------------------- R5
     n_axis = axis_rules.add_obligations(res, tree, "C01.R5", scope="spec")
+    n_axis += axis_rules.add_obligations(res, tree, "C01.R5b", scope="observed")
     res.analysed = {"environments": len(analyses(tree)), "nested_spec_nodes": n_specs, "observation_leaves": n_leaves,
                     "literal_leaves_compared": n_lit, "sampled_leaves_compared": n_samp, "axis_bound_sites": n_axis, "dtype_categories_compared": n_dt, "leaf_shapes_compared": n_shape}
     if n_specs < 31:
